@@ -126,8 +126,8 @@ func (s *compositeSchedule) Left() int {
 		s.rwMu.Unlock()
 		return s.Left()
 	}
-	if left < 0 {
-		return -1
+	if left < 0 || leftAfter < 0 {
+		return -1 // Tokens count after current schedule is unknown, so total is unknown too.
 	}
 	return left + leftAfter
 }
